@@ -34,6 +34,9 @@ inductive In
   | userReset (inConnect : Bool)
   | resetInLocate               -- a user reset that lands while a discovery (the pump's own or async_connect's) is in flight;
                                 -- the step ends when that discovery has returned on a healthy network
+  | locateInReset               -- the converse: a reset whose announcements take the client's handlers long enough for the PUMP (another
+                                -- task) to run a whole discovery in between - the reset has cleared the descriptors and the state says
+                                -- IDLE when the pump looks, the discovery completes, then the reset's last statements run
 deriving Repr, DecidableEq
 
 def resetR (s : R) : R := { s with st := "IDLE", descriptors := false, facade := false, spaAlive := false }
@@ -74,6 +77,11 @@ def step (s : R) : In → R
   | .retryExceeded => if s.spaAlive || !retryExceededNeedsSpa then { s with st := stateOnRetryExceeded } else s
   | .userReset inConnect => { resetR s with pump := s.pump && (!inConnect || pumpCatchesExceptions) }
   | .resetInLocate => if s.pump then locateR s true else resetR s
+  | .locateInReset =>
+    if s.pump && pumpLocateStates.contains "IDLE" then
+      let s1 := locateR { s with st := "IDLE", descriptors := false } false
+      { s1 with st := "IDLE", facade := false, spaAlive := false, descriptors := s1.descriptors && !resetForgetsDescriptorsLast }
+    else resetR s
 
 def run (s : R) : List In → R
   | [] => s
@@ -91,7 +99,7 @@ def allR : List R :=
 
 def allIn : List In :=
   [.pumpTurn true, .pumpTurn false, .pumpTurnHandshakeFails, .ping true, .ping false, .rfErr, .retryExceeded, .userReset true, .userReset false,
-   .resetInLocate]
+   .resetInLocate, .locateInReset]
 
 /-- coherence of reachable records: the facts the code maintains between macro steps -/
 def Coherent (s : R) : Bool :=
